@@ -860,4 +860,70 @@ mut("valauth: conditional list no longer enforced", ["R-VAL-AUTH"],
                     conditional_list_values[name]["conditional_list_values"][conditional_value]):
                 logger.warning(''')], ["conditional_list_values"])
 
+# ------------------------------------------------------------------------------------------------ rules added after the seeded campaign
+mut("accum: storage needed overwritten instead of accumulated", ["R-ACCUM"],
+    [(ST, "                storage_needed += job.hourly_data_stored_across_usage_patterns",
+      "                storage_needed = job.hourly_data_stored_across_usage_patterns")], ["Storage.storage_needed", "overwrites"])
+mut("leak: replication factor read through a leaked loop variable", ["R-LEAK"],
+    [(ST, "        storage_freed *= self.data_replication_factor", "        storage_freed *= job.server.storage.data_replication_factor")],
+    ["Storage.storage_freed", "job"])
+mut("paren: quotient's divisor printed without parentheses", ["R-PAREN"],
+    [(EB, '''            if tuple_element[1] == "/":
+                if type(tuple_element[2]) == tuple:
+                    right_parenthesis = True''', '''            if tuple_element[1] == "/":
+                if type(tuple_element[2]) == tuple and tuple_element[2][1] != "*":
+                    right_parenthesis = True''')], ["'/'", "right"])
+mut("units: gpu defined in terms of cpu_core", ["R-UNITS"],
+    [("constants/custom_units.txt", "gpu = [gpu] = gpu", "gpu = cpu_core = gpu")], ["gpu"])
+mut("derived: hourly unit cached", ["R-DERIVED"],
+    [(EO, "        return self.value.dtypes.iloc[0].units", "        return getattr(self, \"_unit\", None) or self.value.dtypes.iloc[0].units")],
+    ["ExplainableHourlyQuantities.unit"])
+mut("summary: to() skips the conversion on a fast path", ["R-SUMMARY"],
+    [(EO, '''    def to(self, unit_to_convert_to: Unit):
+        self.value["value"] = self.value["value"].pint.to(unit_to_convert_to)''', '''    def to(self, unit_to_convert_to: Unit):
+        if self.unit.dimensionless and unit_to_convert_to == u.dimensionless:
+            return self
+        self.value["value"] = self.value["value"].pint.to(unit_to_convert_to)''')], ["ExplainableHourlyQuantities.to", "conditional"])
+mut("replace-sym: empty exemption only for the new value", ["R-REPLACE-SYM"],
+    [(OL, "        if not isinstance(new_value, EmptyExplainableObject) and not isinstance(self, EmptyExplainableObject):",
+      "        if not isinstance(new_value, EmptyExplainableObject):")], ["type-compatibility guard"])
+mut("edge: registration only with attached ancestors", ["R-EDGE"],
+    [(EB, "            for direct_ancestor_with_id in self.direct_ancestors_with_id:\n                direct_ancestor_with_id.add_child_to_direct_children_with_id(direct_child=self)",
+      "            for direct_ancestor_with_id in self.direct_ancestors_with_id:\n                if direct_ancestor_with_id.modeling_obj_container is not None:\n                    direct_ancestor_with_id.add_child_to_direct_children_with_id(direct_child=self)")],
+    ["add_child_to_direct_children_with_id", "some ancestors only"])
+mut("tzreplace: simulation date relabelled as UTC", ["R-TZREPLACE"],
+    [(MU, "            self.system.simulation = self\n", "            self.simulation_date = simulation_date.replace(tzinfo=pytz.utc)\n            self.system.simulation = self\n")],
+    ["simulation_date"])
+mut("valuestore: usage pattern rewrites the converted series", ["R-VALUESTORE"],
+    [(UP, "        self.utc_hourly_usage_journey_starts = utc_hourly_usage_journey_starts.set_label(f\"{self.name} UTC\")",
+      "        utc_hourly_usage_journey_starts.value = utc_hourly_usage_journey_starts.value.asfreq(\"h\", method=\"ffill\")\n        self.utc_hourly_usage_journey_starts = utc_hourly_usage_journey_starts.set_label(f\"{self.name} UTC\")")],
+    ["update_utc_hourly_usage_journey_starts"])
+mut("jsonload: empty lists left unconverted", ["R-JSON-LOAD"],
+    [(J2S, "                    mod_obj.__setattr__(attr_key, ListLinkedToModelingObj(output_val), check_input_validity=False)",
+      "                    if output_val:\n                        mod_obj.__setattr__(attr_key, ListLinkedToModelingObj(output_val), check_input_validity=False)")],
+    ["ListLinkedToModelingObj", "output_val"])
+mut("jsonsib: hourly writer takes the rounding depth first (revert of fix F14)", ["R-JSON-SIB"],
+    [(EO, "    def to_json(self, with_calculated_attributes_data=False, rounding_depth=3):",
+      "    def to_json(self, rounding_depth=3, with_calculated_attributes_data=False):")], ["rounding_depth"])
+mut("jsonsib: scalar writer rounds", ["R-JSON-SIB"],
+    [(EO, '''"value": float(self.value.magnitude), "unit"''', '''"value": round(float(self.value.magnitude), 6), "unit"''')],
+    ["ExplainableQuantity.to_json rounds"])
+mut("zip: twin links skipped for dict values", ["R-ZIP"],
+    [(MU, "            value_to_recompute.simulation_twin = recomputed_value\n",
+      "            if not isinstance(value_to_recompute, ExplainableObject):\n                continue\n            value_to_recompute.simulation_twin = recomputed_value\n")],
+    ["twins", "conditional"])
+mut("local: end-offset shortcut in convert_to_utc", ["R-LOCAL"],
+    [(EO, '''    def convert_to_utc(self, local_timezone):
+''', '''    def convert_to_utc(self, local_timezone):
+        if len(self.value) < 2:
+            return ExplainableHourlyQuantities(
+                self.value.set_axis(self.value.index.tz_localize("UTC")),
+                left_parent=self, right_parent=local_timezone, operator="converted to UTC from")
+''')], ["return path bypasses the conversion"])
+mut("prov: parent recorded on one arm only of an if/else", ["R-PROV"],
+    [(SB, '''                    left_parent=self.raw_nb_of_instances,
+                    right_parent=self.fixed_nb_of_instances,
+                    operator="depending on not being empty"''', '''                    left_parent=self.raw_nb_of_instances,
+                    operator="max"''')], ["fixed_nb_of_instances"])
+
 VARIANTS = [v for v in V if v is not None]
